@@ -1,7 +1,7 @@
 """Shared engine of the session-based property checks: generate scripts, run
 implementation and model, project and diff, run the monitors on the
 implementation's trace, shrink, report."""
-import glob, os, random
+import time, glob, os, random
 from . import common as C, sess, mq
 from .sessgen import Gen
 
@@ -48,7 +48,12 @@ class Wire:
         self.buf[conn] = rest
         out = []
         for p in fr:
-            d = mq.parse(p)
+            try:
+                d = mq.parse(p)
+            except Exception:
+                # frames as a packet but its body does not fit its type: what the client wrote is not MQTT
+                self.malformed.append((opi, conn, p.hex()))
+                continue
             self.packets.append((opi, conn, d))
             out.append(d)
         return out
@@ -673,7 +678,8 @@ def shrink(ctx, script, fails):
     cur = list(script)
     n = 2
     budget = 60
-    while len(cur) >= 2 and budget > 0:
+    t_end = time.time() + (40 if ctx.quick() else 240)     # scripts that make the client hang are slow to re-run
+    while len(cur) >= 2 and budget > 0 and time.time() < t_end:
         chunk = max(1, len(cur) // n)
         reduced = False
         for i in range(0, len(cur), chunk):
@@ -683,7 +689,7 @@ def shrink(ctx, script, fails):
                 cur, reduced = cand, True
                 n = max(n - 1, 2)
                 break
-            if budget <= 0:
+            if budget <= 0 or time.time() > t_end:
                 break
         if not reduced:
             if chunk == 1:
